@@ -52,11 +52,12 @@ ENTRY_POINTS = [
     "fickle.Pickled.has_non_setstate_call", "fickle.Pickled.unsafe_imports",
     "fickle.Pickled.non_standard_imports", "tracing.Trace.run", "analysis.check_safety",
     "analysis.is_likely_safe", "analysis.Analyzer.analyze", "analysis.AnalysisContext.analyze",
-    "cli.main",
+    "cli.main", "polyglot.check_pickle",
 ]
 # CLI options whose presence selects a branch that is NOT an analysis entry point (value assumed)
 ENTRY_ASSUME = {"cli.main": {"inject": None, "create": None}}
 
+SENTINEL = "<sentinel:non-entry-that-calls-eval>"
 CTOR = ("__init__", "__new__")
 NOT_IMPLICIT = ("__init__", "__new__", "__init_subclass__")
 
@@ -1125,6 +1126,8 @@ class Extractor:
         for f, e in self.open_calls:
             name, eff = self.classify_open(f, e)
             self.edge(f.qual, self.leaf(name, eff))
+        # a synthetic NON-entry body that evaluates its input: shows the checker can say "no"
+        self.edge(SENTINEL, self.ext_leaf("builtins.eval"))
 
     def entry_nodes(self):
         quals = {f.qual: f for f in self.funcs}
@@ -1225,7 +1228,7 @@ def emit(x):
     names = sorted(x.edges)
     # stable ids: bodies first, then pseudo nodes, then leaves (all sorted by name)
     bodies = sorted(f.qual for f in x.funcs)
-    pseudo = ["<implicit>", "<unknown-callee>"]
+    pseudo = ["<implicit>", "<unknown-callee>", SENTINEL]
     leaves = sorted(n for n in names if n not in set(bodies) and n not in pseudo)
     for n in leaves:
         if n not in x.leaf_eff:
@@ -1250,6 +1253,7 @@ def emit(x):
     lines.append("Definition entry_points : list nat :=")
     lines.append("  [" + "; ".join(str(idx[e]) for e in entries) + "].\n")
     lines.append("Definition n_bodies : nat := %d." % len(bodies))
+    lines.append("Definition sentinel : nat := %d." % idx[SENTINEL])
     text = "\n".join(lines) + "\n"
     return text, order, idx, eff, entries
 
@@ -1297,12 +1301,15 @@ def main():
             "CallGraph": {"digest": hashlib.sha256(text.encode()).hexdigest()[:16]},
             "sources": {x.short(m): hashlib.sha256(m.src.encode()).hexdigest()[:16]
                         for m in x.modules.values() if m.in_scope},
-            "nodes": len(order), "bodies": len(bodies), "leaves": len(order) - len(bodies) - 2,
+            "nodes": len(order), "bodies": len(bodies), "leaves": len(order) - len(bodies) - 3,
             "edges": sum(len(v) for v in x.edges.values()),
             "entry_points": entries,
             "reachable": len(parent), "reachable_bodies": len([n for n in parent if n in bodies]),
             "reachable_leaves": {n: eff[n] for n in sorted(parent) if n in x.leaf_eff},
             "effectful_in_graph": sorted(n for n in order if eff[n] == EFFECTFUL),
+            "effectful_reaching_bodies": sorted(
+                b for b in bodies if any(eff[n] == EFFECTFUL for n in reach(x.edges, [b]))),
+            "python": ".".join(map(str, PYVER)),
             "effectful_reachable": [{"leaf": n, "path": path_to(parent, n)} for n in bad],
             "entry_effects": per_entry,
             "pruned_branches": x.pruned,
